@@ -191,6 +191,11 @@ static void judge_render(const char *routine, const char *cls, const char *got, 
     } while (0)
 
 // ---------------------------------------------------------------- parse clauses
+// Every end variable handed to a parser is poisoned first: a small invalid address or a pointer into an unrelated
+// buffer (what a caller's variable holds after an earlier call); a parser that does not write it is caught.
+static char g_elsewhere[16];
+#define POISON(k) (((k) & 1) ? (char *)1 : g_elsewhere + 5)
+#define IS_POISON(p) ((p) == (char *)1 || (p) == g_elsewhere + 5)
 struct Term
 {
     char c;          // 0 = end of string
@@ -251,7 +256,7 @@ static void judge_parse(const char *routine, FN fn, T want, const char *text, in
     char *s = make_input(text, len, sp, t, tail);
     if (vf::verbose())
         printf("  %s(\"%s\", %u)\n", routine, vf::esc(s, strlen(s)).c_str(), base);
-    char *end = (char *)-1;
+    char *end = POISON(len + t.c);
     T got = fn(s, (uint8_t)base, &end);
     const char *digits = !has_letters(text, len) ? (base <= 10 ? "digits" : "digits-only-base>10") : sp == UPPER ? "upper-case" : "lower-case";
     if (got != want)
@@ -264,7 +269,7 @@ static void judge_parse(const char *routine, FN fn, T want, const char *text, in
     {
         snprintf(key, sizeof key, "parse:%s:end:%s", routine, t.cls);
         vf::fail(key, "text=\"%s\" base=%u number is %d chars, *end = text%+ld", vf::esc(s, strlen(s)).c_str(), base, len,
-                 end == (char *)-1 ? -999999L : (long)(end - s));
+                 IS_POISON(end) ? -999999L : (long)(end - s));
     }
     // the end pointer is optional
     T got2 = fn(s, (uint8_t)base, nullptr);
@@ -690,7 +695,7 @@ static void sweep_chunk(unsigned base, uint32_t lo)
         }
         // ---- parse back what was rendered (both spellings over the sweep), NUL mostly, other terminators every 16th
         vf::cls("igris_atou32");
-        char *end = nullptr;
+        char *end = POISON(k);
         uint32_t gu = igris_atou32(bu, (uint8_t)base, &end);
         if (gu != u || end != bu + nu)
         {
@@ -698,6 +703,7 @@ static void sweep_chunk(unsigned base, uint32_t lo)
             vf::fail(key, "text=\"%s\" base=%u got=%u want=%u *end=text%+ld", bu, base, gu, u, (long)(end - bu));
         }
         vf::cls("igris_atoi32");
+        end = POISON(k + 1);
         int32_t gs = igris_atoi32(bs, (uint8_t)base, &end);
         if (gs != s || end != bs + ns)
         {
@@ -775,6 +781,165 @@ static void stride_run(uint64_t c)
 }
 VF_SUITE(stride32, stride_count, stride_run)
 
+
+// (f) digit-less texts: nothing to convert. The value is the empty sum 0; *end must be WRITTEN and is the start of the
+//     text (the first character already cannot continue the number). For the signed parsers a leading '-' may or may not
+//     count as consumed (statement: "first character that cannot continue the number" vs. strtol's "no conversion"):
+//     start and start+1 are both accepted.
+struct AnyParser
+{
+    const char *name;
+    bool is_signed;
+    long long (*call)(const char *, uint8_t, char **);
+};
+#define ANYP(fn, sg) {#fn, sg, [](const char *b, uint8_t base, char **e) -> long long { return (long long)fn(b, base, e); }}
+static const AnyParser PARSERS[8] = {ANYP(igris_atoi8, true),  ANYP(igris_atoi16, true),  ANYP(igris_atoi32, true),  ANYP(igris_atoi64, true),
+                                     ANYP(igris_atou8, false), ANYP(igris_atou16, false), ANYP(igris_atou32, false), ANYP(igris_atou64, false)};
+static void judge_digitless(const AnyParser &P, const std::string &text, unsigned base, const char *cls, unsigned k)
+{
+    char key[120];
+    vf::cls(P.name);
+    char *s = block(text.size() + 1, 2);
+    memcpy(s, text.c_str(), text.size() + 1);
+    if (vf::verbose())
+        printf("  %s(\"%s\", %u) [digit-less: %s]\n", P.name, vf::esc(s, text.size()).c_str(), base, cls);
+    char *end = POISON(k);
+    long long got = P.call(s, (uint8_t)base, &end);
+    if (IS_POISON(end))
+    {
+        snprintf(key, sizeof key, "parse:%s:end-not-written:%s", P.name, cls);
+        vf::fail(key, "text=\"%s\" base=%u: *end still holds the caller's old value", vf::esc(s, text.size()).c_str(), base);
+    }
+    bool ok = end == s || (P.is_signed && s[0] == '-' && end == s + 1);
+    if (!ok)
+    {
+        snprintf(key, sizeof key, "parse:%s:end:digit-less:%s", P.name, cls);
+        vf::fail(key, "text=\"%s\" base=%u has no digit; *end = text%+ld", vf::esc(s, text.size()).c_str(), base, (long)(end - s));
+    }
+    if (got != 0)
+    {
+        snprintf(key, sizeof key, "parse:%s:value:digit-less", P.name);
+        vf::fail(key, "text=\"%s\" base=%u has no digit; value %lld", vf::esc(s, text.size()).c_str(), base, got);
+    }
+    (void)P.call(s, (uint8_t)base, nullptr); // the end pointer stays optional
+}
+static uint64_t digitless_count() { return 35; }
+static void digitless_run(uint64_t c)
+{
+    unsigned base = 2 + (unsigned)c, k = (unsigned)c;
+    for (const AnyParser &P : PARSERS)
+    {
+        judge_digitless(P, "", base, "empty", k++);
+        judge_digitless(P, "-", base, "lone-sign", k++);
+        for (unsigned j = 0; j < 24; j++)
+        {
+            Term t = pick_term(base, j * 6 + 1 + (j % 5)); // cycles through all classes but NUL
+            if (!t.c)
+                continue;
+            std::string tt(1, t.c);
+            judge_digitless(P, tt, base, "terminator-only", k++);
+            judge_digitless(P, tt + "1", base, t.cls[0] == 'd' ? "digit>=base-first" : "terminator-first", k++);
+            judge_digitless(P, "-" + tt, base, "sign+terminator", k++);
+            judge_digitless(P, "-" + tt + "1", base, "sign+terminator", k++);
+        }
+        for (const char *lead : {" 1", "\t1", "\n0", " -1", "+1", "+", ".1", "--1", "-+1", "- 1", "-\x80", "\xff"})
+            judge_digitless(P, lead, base, lead[0] == '+' ? "plus-sign" : lead[0] == '-' ? "sign+terminator" : "leading-blank-or-other", k++);
+        VF_OK("digit-less text: *end written, at the start (signed: or behind a lone '-'), value 0");
+    }
+    vf::count_bulk(8 * 110, 8 * 110);
+    if (base == 10)
+        vf::sample("digit-less: \"\", \"-\", \";\", \"-;\", \" 1\", \"+1\", \"a1\" ... base 10, all 8 parsers, poisoned end variable");
+}
+VF_SUITE(digitless, digitless_count, digitless_run)
+
+// (g) field splitter: one line of separated fields (numbers, empty fields, lone signs), parsed field by field with ONE end
+//     variable that is never reset by the caller; a parser that leaves *end alone reports the end of the previous field.
+static const uint64_t SB = 100;
+static uint64_t split_count() { return (vf::thorough() ? 400000ull : 30000ull) / SB; }
+static void split_run(uint64_t c)
+{
+    vf::Rng r(vf::seed(), 0xC075, c);
+    char key[120];
+    for (uint64_t n = 0; n < SB; n++)
+    {
+        const AnyParser &P = PARSERS[r.below(8)];
+        int bits = 8 << (&P - PARSERS) % 4;
+        unsigned base = r.chance(1, 2) ? 10 : 2 + (unsigned)r.below(35);
+        static const char SEPS[] = ",;:| /";
+        int nf = 2 + (int)r.below(7);
+        struct Field { size_t start, numlen; long long want; bool digitless, lone_sign; };
+        Field F[8];
+        std::string line;
+        for (int i = 0; i < nf; i++)
+        {
+            Field f{line.size(), 0, 0, false, false};
+            int kind = (int)r.below(8);
+            if (kind == 0)
+                f.digitless = true; // empty field
+            else if (kind == 1)
+            {
+                f.digitless = f.lone_sign = true;
+                line += '-';
+            }
+            else
+            {
+                uint64_t pat = biased(r, bits, base);
+                char t[72];
+                int len;
+                if (P.is_signed)
+                {
+                    int64_t v = bits == 64 ? (int64_t)pat : (int64_t)(pat << (64 - bits)) >> (64 - bits);
+                    len = ref_text(mag_of(v), v < 0, base, t);
+                    f.want = v;
+                }
+                else
+                {
+                    len = ref_text(pat, false, base, t);
+                    f.want = (long long)pat;
+                }
+                bool up = r.chance(1, 2);
+                for (int j = 0; j < len; j++)
+                    line += (up && t[j] >= 'a') ? (char)(t[j] - 32) : t[j];
+                f.numlen = (size_t)len;
+            }
+            F[i] = f;
+            if (i + 1 < nf)
+                line += SEPS[r.below(sizeof SEPS - 1)];
+        }
+        vf::Exact in(line.c_str(), line.size() + 1);
+        if (vf::verbose())
+            printf("  %s splits \"%s\" base %u\n", P.name, line.c_str(), base);
+        vf::cls(P.name);
+        char *end = POISON(n); // set once, then reused like a caller's loop variable
+        for (int i = 0; i < nf; i++)
+        {
+            char *p = in.c() + F[i].start, *before = end;
+            long long got = P.call(p, (uint8_t)base, &end);
+            bool ok = F[i].digitless ? (end == p || (F[i].lone_sign && P.is_signed && end == p + 1)) : end == p + F[i].numlen;
+            if (!ok)
+            {
+                snprintf(key, sizeof key, "parse:%s:end:splitter:%s", P.name, end == before ? "stale" : F[i].digitless ? "digit-less-field" : "number-field");
+                vf::fail(key, "line=\"%s\" base=%u field %d at offset %zu (%s): *end = line%+ld%s", line.c_str(), base, i, F[i].start,
+                         F[i].digitless ? (F[i].lone_sign ? "lone sign" : "empty") : "number", IS_POISON(end) ? -999999L : (long)(end - in.c()),
+                         end == before ? " (unchanged from the previous call)" : "");
+            }
+            long long want = F[i].want;
+            if (!P.is_signed && bits < 64)
+                got &= (1ll << bits) - 1;
+            if (got != want)
+            {
+                snprintf(key, sizeof key, "parse:%s:value:splitter", P.name);
+                vf::fail(key, "line=\"%s\" base=%u field %d: got %lld want %lld", line.c_str(), base, i, got, want);
+            }
+        }
+        VF_OK("field splitter: one reused end variable follows every field, empty fields and lone signs included");
+        vf::count_case(vf::hash_bytes(line.data(), line.size(), base + 64 * (uint64_t)(&P - PARSERS)), nf > 2);
+        if (n == 0 && vf::want_sample())
+            vf::sample("splitter: %s base %u line \"%s\"", P.name, base, line.c_str());
+    }
+}
+VF_SUITE(splitter, split_count, split_run)
+
 extern "C" void vf_setup()
 {
     for (const char *c : {"igris_i*toa text == reference (case-insensitive, uniform case, NUL and returned pointer at the end)",
@@ -786,6 +951,8 @@ extern "C" void vf_setup()
                           "debug_printdec_signed_* == canonical decimal", "debug_printdec_unsigned_* / uintN == canonical decimal",
                           "debug_printhex_* == fixed-width hexadecimal of the value", "debug_printbin_* == fixed-width binary of the value",
                           "vt100_left == ESC [ decimal D, returns its length",
-                          "sweep: i32toa/u32toa == odometer reference; atoi32/atou32 read the text back"})
+                          "sweep: i32toa/u32toa == odometer reference; atoi32/atou32 read the text back",
+                          "digit-less text: *end written, at the start (signed: or behind a lone '-'), value 0",
+                          "field splitter: one reused end variable follows every field, empty fields and lone signs included"})
         vf::require(c);
 }
